@@ -29,8 +29,12 @@ let c12_rt (line : string) : string =
        (match sb_build cfg b0 doc with
         | SbPanic -> "panic2"
         | SbBuilt (s2, e2) ->
-          "ok known=" ^ (if c12_known s1 then "1" else "0") ^ " ast=" ^ Lib_ast.string_of_document doc
+          "ok known=" ^ (if c12_known s1 then "1" else "0")
+          ^ " docok=" ^ (if bi_doc_ok (Lib_ast.document_of_string ast) then "1" else "0") ^ " ast=" ^ Lib_ast.string_of_document doc
           ^ " s1=" ^ observe_schema s1 ^ " s2=" ^ observe_schema s2 ^ " e2=" ^ errs_str e2))
   | _ -> failwith "c12_rt line"
 
-let families = [ ("sb_build", sb_build_line); ("c12_rt", c12_rt) ]
+(* the decidable hypothesis of the C12 theorems about the built-in initial state, on the real data *)
+let sb_b0_ok (_ : string) : string = if bi_b0_ok (Lazy.force builtin) then "b0_ok" else "b0_not_ok"
+
+let families = [ ("sb_build", sb_build_line); ("c12_rt", c12_rt); ("sb_b0_ok", sb_b0_ok) ]
